@@ -1014,7 +1014,8 @@ const TAG: usize = 64;
 pub struct RoundSpec {
     /// request size per thread
     pub sizes: Vec<usize>,
-    /// per thread: 0 alloc, 1 alloc_zeroed, 2 alloc then realloc to 2x, 3 alloc then realloc to 1/2
+    /// per thread: 0 alloc, 1 alloc_zeroed, 2 alloc then realloc to 2x, 3 alloc then realloc to 1/2,
+    /// 4 reset_max() then alloc (the reset races with the other threads' operations)
     pub kinds: Vec<u8>,
     /// true: every thread keeps its blocks until all threads are done (quiescent point with live
     /// blocks); false: every block is freed right after it was obtained (alloc/free churn)
@@ -1030,7 +1031,7 @@ fn round_strategy(t: usize) -> BoxedStrategy<RoundSpec> {
         // per thread: size variant and kind; every fourth round all threads grow their blocks
         (
             prop::collection::vec(
-                (0usize..3, prop_oneof![4 => Just(0u8), 2 => Just(1u8), 2 => Just(2u8), 1 => Just(3u8)]),
+                (0usize..3, prop_oneof![4 => Just(0u8), 2 => Just(1u8), 2 => Just(2u8), 1 => Just(3u8), 2 => Just(4u8)]),
                 t,
             ),
             prop::bool::weighted(0.25),
@@ -1158,6 +1159,7 @@ struct ThreadTotals {
     realloc_ok: u64,
     realloc_refused: u64,
     zeroed_ok: u64,
+    racing_resets: u64,
 }
 
 unsafe fn tag(p: *mut u8, size: usize, who: u8) {
@@ -1196,6 +1198,10 @@ fn worker(sh: &Shared, me: usize) -> ThreadTotals {
         }
         // ---- burst
         for _ in 0..BURST {
+            if kind == 4 {
+                // the peak is reset while the other threads are inside the allocator
+                sh.a.reset_max();
+            }
             let p = unsafe {
                 if kind == 1 {
                     sh.a.alloc_zeroed(l)
@@ -1231,7 +1237,7 @@ fn worker(sh: &Shared, me: usize) -> ThreadTotals {
             }
             unsafe { tag(p, s, who) };
             let mut blk = (p, s);
-            if kind >= 2 {
+            if kind == 2 || kind == 3 {
                 let new = if kind == 2 { s * 2 } else { (s / 2).max(1) };
                 sh.lb.fetch_sub(s, Ordering::SeqCst);
                 let q = unsafe { sh.a.realloc(p, l, new) };
@@ -1294,9 +1300,12 @@ fn worker(sh: &Shared, me: usize) -> ThreadTotals {
                     format!("round {} ({} threads): {} bytes live at the quiescent point, limit {}", r, sh.t, live, limit),
                 );
             }
+            if spec.kinds.iter().any(|k| *k == 4) {
+                tot.racing_resets += 1;
+            }
             let peak = sh.a.get_max();
             if peak < live {
-                let has_realloc_up = spec.kinds.iter().any(|k| *k == 2);
+                let has_realloc_up = spec.kinds.iter().any(|k| *k == 2) && !spec.kinds.iter().any(|k| *k == 4);
                 let detail = format!(
                     "round {} ({} threads): get_max() = {} < {} bytes live at the quiescent point (reset at the previous one)",
                     r, sh.t, peak, live
@@ -1414,6 +1423,7 @@ fn thread_run(seed: u64, t: usize, rounds: u64, plan_len: usize, f21_known: bool
     st.class_n("thread_rounds_all_succeed", tot.all_ok_rounds);
     st.class_n("thread_rounds_all_refused", tot.all_refused_rounds);
     st.class_n("thread_rounds_hold(quiescent point with live blocks)", tot.hold_rounds);
+    st.class_n("thread_rounds_with_reset_max_racing_the_operations", tot.racing_resets);
     st.class_n("thread_ops_succeeded", tot.succ);
     st.class_n("thread_ops_refused", tot.refu);
     for si in &tot.mixed_specs {
